@@ -267,7 +267,9 @@ theorem downgrade_wf (cfg : Cfg) (P : Palettes) (hP : P.ok = true) (c : Color) (
     obtain ⟨t, ht, _⟩ := paletteGet_ok P.eightBit n (by omega)
     obtain ⟨k, hk, hk16, _⟩ := paletteMatch_ok16 P.windows t hw16
     simp only [assertSome, bind, Except.bind]
-    split <;> simp [ht, hk, hk16, *]
+    split
+    · next hc => simp [hc]
+    · simp [ht, hk, hk16]
   case eightBit.standard =>
     obtain ⟨⟨n, rfl, hn⟩, rfl⟩ := h
     obtain ⟨t, ht, _⟩ := paletteGet_ok P.eightBit n (by omega)
